@@ -413,13 +413,41 @@ func (c *ctx) ruleBlockCacheComplete(R string) {
 			if how == "$1" && fnName(enclosing(f)) == fnName(indexBlock) {
 				ok = true // the block handed to IndexBlock (the parameter, possibly spilled to a cell because closures capture it)
 			}
-			switch v := val.(type) {
-			case *ssa.Extract:
-				if call, isCall := v.Tuple.(*ssa.Call); isCall && callIs(call.Common(), getBlock) && v.Index == 0 {
-					if b, isConst := constBoolArg(call, 1); isConst && b {
-						ok = true
+			// getBlock(key, true), directly or through a wrapper every return of which is such a call
+			var full func(v ssa.Value, depth int) bool
+			full = func(v ssa.Value, depth int) bool {
+				ex, isEx := stripLift(v).(*ssa.Extract)
+				if !isEx || ex.Index != 0 || depth > 2 {
+					return false
+				}
+				call, isCall := ex.Tuple.(*ssa.Call)
+				if !isCall {
+					return false
+				}
+				if callIs(call.Common(), getBlock) {
+					b, isConst := constBoolArg(call, 1)
+					return isConst && b
+				}
+				sc := call.Common().StaticCallee()
+				if sc == nil || len(sc.Blocks) == 0 || pkgShort(sc) != "store" {
+					return false
+				}
+				n := 0
+				for _, blk := range sc.Blocks {
+					if ret, isRet := blk.Instrs[len(blk.Instrs)-1].(*ssa.Return); isRet && len(ret.Results) > 0 {
+						if isNilConst(ret.Results[0]) {
+							continue // error exit
+						}
+						n++
+						if !full(ret.Results[0], depth+1) {
+							return false
+						}
 					}
 				}
+				return n > 0
+			}
+			if full(val, 0) {
+				ok = true
 			}
 			r.Check(ok, R+"/blockCache.Add/"+fnName(enclosing(f)), c.p.Pos(in.Pos()), "caches a complete block result ("+how+")",
 				fnName(enclosing(f))+" puts "+how+" into the process-wide block cache, which is not a complete block result (the indexed block or getBlock(..., true)): later full reads of that height — certificate results, blocks served to peers — would lose the transactions")
